@@ -81,6 +81,24 @@ type c19Job struct {
 	Group      int      `json:"group"` // number of channels run concurrently with this one (1-3)
 }
 
+// keyClass is the coarse class of a message used in violation keys.
+func (m c19Msg) keyClass() string {
+	k := "binary"
+	if m.Text {
+		k = "text"
+	}
+	switch {
+	case m.Size == 0:
+		return "empty|" + k
+	case m.Size <= 1163:
+		return "one-chunk|" + k
+	case m.Size <= 65535:
+		return "fragmented|" + k
+	default:
+		return "beyond-read-buffer|" + k
+	}
+}
+
 func (j c19Job) reliableOrdered() bool { return j.Ordered && j.Rexmit == nil && j.Lifetime == nil }
 
 // c19Payload is the deterministic content of message idx of direction dir of job serial.
@@ -106,6 +124,7 @@ type c19Inbox struct {
 	msgs   []*DataChannelMessage
 	sig    chan struct{}
 	opened chan struct{}
+	closed chan struct{} // OnClose fired: the read loop of this channel object has ended
 	// set by the run that owns the channel
 	expected int
 	judged   bool
@@ -114,7 +133,7 @@ type c19Inbox struct {
 }
 
 func c19NewInbox(dc *DataChannel) *c19Inbox {
-	in := &c19Inbox{dc: dc, sig: make(chan struct{}, 1), opened: make(chan struct{})}
+	in := &c19Inbox{dc: dc, sig: make(chan struct{}, 1), opened: make(chan struct{}), closed: make(chan struct{})}
 	dc.OnMessage(func(m DataChannelMessage) {
 		in.mu.Lock()
 		in.msgs = append(in.msgs, &m)
@@ -125,14 +144,19 @@ func c19NewInbox(dc *DataChannel) *c19Inbox {
 		}
 	})
 	dc.OnOpen(func() { vPairCloseOnce(in.opened) })
+	dc.OnClose(func() { vPairCloseOnce(in.closed) })
 
 	return in
 }
 
 // take waits until message i was delivered and returns it (the reference is dropped).
+// It returns nil when the channel reported OnClose before message i was delivered: pion
+// fires OnClose after the channel's read loop ended, so nothing more will be delivered
+// (a positive event, not a time-out).
 func (in *c19Inbox) take(i int, what string) *DataChannelMessage {
 	guard := time.NewTimer(vPairGuard)
 	defer guard.Stop()
+	closed := false
 	for {
 		in.mu.Lock()
 		if i < len(in.msgs) {
@@ -143,8 +167,13 @@ func (in *c19Inbox) take(i int, what string) *DataChannelMessage {
 			return m
 		}
 		in.mu.Unlock()
+		if closed {
+			return nil
+		}
 		select {
 		case <-in.sig:
+		case <-in.closed:
+			closed = true // look once more: deliveries happen before OnClose
 		case <-guard.C:
 			vPairFatalf("liveness guard expired while waiting for message %d of %s", i, what)
 		}
@@ -380,24 +409,25 @@ func c19Run(x *c19Ctx, cn *c19Conn, j c19Job, localIndex int) { //nolint:cyclop,
 	if j.Mode != "preneg" {
 		// mirroring clause: the in-band channel as the remote peer sees it
 		r := ain.dc
-		mism := func(field, want, got string) {
-			c.Violation(fmt.Sprintf("mirror|%s|%s", field, caseKey),
+		mism := func(field, class, want, got string) {
+			c.Violation(fmt.Sprintf("mirror|%s|%s", field, class),
 				fmt.Sprintf("in-band channel created with %s appears remotely with %s=%q, created with %q", caseKey, field, c19Clip(got), c19Clip(want)), j)
 		}
+		relKind := strings.SplitN(c19Rel(j), "=", 2)[0]
 		if r.Label() != label {
-			mism("label", label, r.Label())
+			mism("label", "label="+c19StrClasses[j.Label], label, r.Label())
 		}
 		if r.Protocol() != proto {
-			mism("protocol", proto, r.Protocol())
+			mism("protocol", "protocol="+c19StrClasses[j.Proto], proto, r.Protocol())
 		}
 		if r.Ordered() != j.Ordered {
-			mism("ordered", fmt.Sprint(j.Ordered), fmt.Sprint(r.Ordered()))
+			mism("ordered", fmt.Sprintf("ordered=%v|%s", j.Ordered, relKind), fmt.Sprint(j.Ordered), fmt.Sprint(r.Ordered()))
 		}
 		if c19U16Text(r.MaxRetransmits()) != c19U16Text(j.Rexmit) {
-			mism("maxRetransmits", c19U16Text(j.Rexmit), c19U16Text(r.MaxRetransmits()))
+			mism("maxRetransmits", fmt.Sprintf("ordered=%v|%s", j.Ordered, c19Rel(j)), c19U16Text(j.Rexmit), c19U16Text(r.MaxRetransmits()))
 		}
 		if c19U16Text(r.MaxPacketLifeTime()) != c19U16Text(j.Lifetime) {
-			mism("maxPacketLifeTime", c19U16Text(j.Lifetime), c19U16Text(r.MaxPacketLifeTime()))
+			mism("maxPacketLifeTime", fmt.Sprintf("ordered=%v|%s", j.Ordered, c19Rel(j)), c19U16Text(j.Lifetime), c19U16Text(r.MaxPacketLifeTime()))
 		}
 		x.distinct("mirror|" + caseKey)
 		x.outcome(fmt.Sprintf("mirrored|ordered=%v|%s", r.Ordered(), c19Rel(j)))
@@ -461,21 +491,28 @@ func c19Judge(x *c19Ctx, in *c19Inbox, j c19Job, dir int, seq []c19Msg, sent []i
 		wantData := c19Payload(j.Serial, dir, idx, want)
 		got := in.take(pos, fmt.Sprintf("job %s direction %d", vkit.Short(j), dir))
 		c.Eval()
+		if got == nil {
+			c.Violation(fmt.Sprintf("deliver|lost-channel-closed|%s|mode=%s", want.keyClass(), mode),
+				fmt.Sprintf("the receiving channel reported OnClose (state %s) after delivering %d of %d sent messages; message #%d (%s) was sent while the channel was open and never delivered", in.dc.ReadyState(), pos, len(sent), pos, want.class()),
+				map[string]any{"job": j, "direction": dir, "position": pos, "sent": want})
+
+			return
+		}
 		if got.IsString == want.Text && bytes.Equal(got.Data, wantData) {
 			x.outcome("intact|" + want.class())
 
 			continue
 		}
 		marker := idx == len(seq)-1
-		cls := want.class()
+		cls := want.keyClass()
 		if marker {
 			cls = "end-marker"
 		}
 		rep := map[string]any{"job": j, "direction": dir, "position": pos, "sent": want, "got_len": len(got.Data), "got_is_string": got.IsString}
-		// classify: is it another message of the same direction?
+		// classify: is it another message of the same direction? (only contents long enough to identify a message)
 		other := -1
 		for k, idx2 := range sent {
-			if k != pos && got.IsString == seq[idx2].Text && bytes.Equal(got.Data, c19Payload(j.Serial, dir, idx2, seq[idx2])) {
+			if k != pos && len(got.Data) >= 16 && got.IsString == seq[idx2].Text && bytes.Equal(got.Data, c19Payload(j.Serial, dir, idx2, seq[idx2])) {
 				other = k
 
 				break
@@ -489,13 +526,13 @@ func c19Judge(x *c19Ctx, in *c19Inbox, j c19Job, dir int, seq []c19Msg, sent []i
 			c.Violation(fmt.Sprintf("deliver|duplicate|expected=%s|mode=%s", cls, mode),
 				fmt.Sprintf("position %d: message #%d was delivered again", pos, other), rep)
 		case bytes.Equal(got.Data, wantData):
-			c.Violation(fmt.Sprintf("deliver|flag|%s|mode=%s", cls, mode),
+			c.Violation(fmt.Sprintf("deliver|flag|%s", cls),
 				fmt.Sprintf("position %d: bytes intact but IsString=%v, sent as text=%v", pos, got.IsString, want.Text), rep)
 		case len(got.Data) != len(wantData):
-			c.Violation(fmt.Sprintf("deliver|length|%s|mode=%s", cls, mode),
+			c.Violation(fmt.Sprintf("deliver|length|%s", cls),
 				fmt.Sprintf("position %d: %d bytes delivered, %d sent (IsString=%v, sent as text=%v)", pos, len(got.Data), len(wantData), got.IsString, want.Text), rep)
 		default:
-			c.Violation(fmt.Sprintf("deliver|bytes|%s|mode=%s", cls, mode),
+			c.Violation(fmt.Sprintf("deliver|bytes|%s", cls),
 				fmt.Sprintf("position %d: %d bytes delivered with different content", pos, len(got.Data)), rep)
 		}
 
@@ -564,15 +601,21 @@ func c19Jobs(c *vkit.Check) []c19Job {
 	modes := []string{"inband", "inband-early", "preneg"}
 	seqs := vkit.AllSequences(len(alpha), 0, maxLen)
 	nDeliver := 0
+	full := !c.Quick() // thorough: every label class x every protocol class; quick: label and protocol of the same class
 	for _, s := range seqs {
-		for cls := 0; cls < 4; cls++ { // label and protocol of the same class
-			for _, mode := range modes {
-				j := c19Job{Part: "deliver", Label: cls, Proto: cls, Mode: mode, Ordered: true, CreatorIsA: nDeliver%2 == 0}
-				for _, a := range s {
-					j.Seq = append(j.Seq, alpha[a])
+		for l := 0; l < 4; l++ {
+			for p := 0; p < 4; p++ {
+				if !full && l != p {
+					continue
 				}
-				add(j)
-				nDeliver++
+				for _, mode := range modes {
+					j := c19Job{Part: "deliver", Label: l, Proto: p, Mode: mode, Ordered: true, CreatorIsA: nDeliver%2 == 0}
+					for _, a := range s {
+						j.Seq = append(j.Seq, alpha[a])
+					}
+					add(j)
+					nDeliver++
+				}
 			}
 		}
 	}
@@ -580,7 +623,7 @@ func c19Jobs(c *vkit.Check) []c19Job {
 	nLabel := 0
 	for l := 0; l < 4; l++ {
 		for p := 0; p < 4; p++ {
-			if l == p {
+			if l == p || full {
 				continue // covered above
 			}
 			for _, mode := range modes {
@@ -598,7 +641,8 @@ func c19Jobs(c *vkit.Check) []c19Job {
 	c.Set("mirror_cases", nMirror)
 	c.Set("delivery_sequence_max_len", maxLen)
 	c.Set("delivery_sequences", len(seqs))
-	c.Set("delivery_cases_sequences_x_4_classes_x_modes", nDeliver)
+	c.Set("delivery_label_protocol_classes_full_product", full)
+	c.Set("delivery_cases_sequences_x_classes_x_modes", nDeliver)
 	c.Set("delivery_cases_12_mixed_label_protocol_classes_x_modes_x_len_le_1", nLabel)
 
 	return jobs
@@ -616,7 +660,7 @@ func c19LongSeq(n int, cycle []int) []c19Msg {
 func TestVerifC19(t *testing.T) { //nolint:cyclop
 	c := vkit.New("C19", "exploration")
 	defer c.Finish(t)
-	c.Rule("case = one data channel opened on an already connected loopback pair. mirror part: label class {empty, ascii, 300-byte, UTF-8} x protocol class (same 4) x ordered {true,false} x reliability {reliable, maxRetransmits 0, 5, maxPacketLifeTime 1, 5000} x creating side {A (DTLS server), B}, in-band; delivery part: every sequence of length <= L (quick 2, thorough 3) over size {0,1,1199,1200,16384,65535} x {text,binary} x mode {in-band sending after OnOpen, in-band sending right after CreateDataChannel returned an open channel, pre-negotiated id} x label/protocol class {empty, ascii, 300-byte, UTF-8; label and protocol of the same class}, the sequence in one direction and its reverse in the other, each followed by an end marker, channels run in groups of 1,2,3 concurrently on one association; the 12 mixed label x protocol class combinations x mode x sequences of length <= 1; long runs of 500 messages per direction over a fixed size cycle on 1, 2 and 3 channels concurrently; non-trivial = a message class actually delivered / an in-band parameter combination actually mirrored")
+	c.Rule("case = one data channel opened on an already connected loopback pair. mirror part: label class {empty, ascii, 300-byte, UTF-8} x protocol class (same 4) x ordered {true,false} x reliability {reliable, maxRetransmits 0, 5, maxPacketLifeTime 1, 5000} x creating side {A (DTLS server), B}, in-band; delivery part: every sequence of length <= L (quick 2, thorough 3) over size {0,1,1199,1200,16384,65535} x {text,binary} x mode {in-band sending after OnOpen, in-band sending right after CreateDataChannel returned an open channel, pre-negotiated id} x label/protocol class (quick: the 4 classes with label and protocol of the same class; thorough: all 16 label x protocol class combinations), the sequence in one direction and its reverse in the other, each followed by an end marker, channels run in groups of 1,2,3 concurrently on one association; quick additionally: the 12 mixed label x protocol class combinations x mode x sequences of length <= 1; long runs of 500 messages per direction over a fixed size cycle on 1, 2 and 3 channels concurrently; non-trivial = a message class actually delivered / an in-band parameter combination actually mirrored")
 	c.Set("schedules_enumerated", false)
 	c.Assume("the internal schedule of ICE/DTLS/SCTP over loopback is whatever happens; delay and reordering inside SCTP are not enumerated")
 	c.Assume("a Send that returns an error did not send: such a message is not expected to arrive (recorded as an outcome)")
@@ -652,6 +696,7 @@ func TestVerifC19(t *testing.T) { //nolint:cyclop
 	c.Sample(jobs[len(jobs)/2])
 	c.Sample(jobs[len(jobs)-1])
 	conns := make([]*c19Conn, pairs)
+	deadline := c.Deadline(8 * time.Minute)
 	vkit.ParallelN(pairs, pairs, func(pi int) {
 		cn := c19Connect(t)
 		conns[pi] = cn
@@ -662,6 +707,13 @@ func TestVerifC19(t *testing.T) { //nolint:cyclop
 		// groups of 1, 2, 3 channels run concurrently on this association
 		g, local := 0, 0
 		for start := 0; start < len(mine); {
+			if time.Now().After(deadline) {
+				if x.once("budget") {
+					c.NotExhaustive(fmt.Sprintf("time budget reached after %d of %d cases of pair %d (cases are enumerated smallest first)", start, len(mine), pi))
+				}
+
+				break
+			}
 			size := g%3 + 1
 			g++
 			end := min(start+size, len(mine))
